@@ -1525,3 +1525,144 @@ Lemma init_new : exists st, init_state fixed INew = Ok st /\ holds st (cfield_tr
 Proof.
   eexists. split; [reflexivity|]. now exists [mk_slot true 0 (cfield_tree [])], 0, 0, None, None, None, None.
 Qed.
+
+(* ------------------------------------------------------------------ Entry::push and Entry::replace through a fresh handle *)
+(* ONewRel 1 (Relation::new): register 4 then holds a new tree *)
+Lemma new_rel_runs r ts tid ri T a b c d : new_only r = true ->
+  nth_error ts tid = Some (mk_slot true ri T) ->
+  exists txt,
+    runs (run_op fixed (ONewRel 1 (rel_spec r))) (st5 ts (mk_hnd tid []) a b c d) (4%N, txt)
+         (st5 (ts ++ [mk_slot true 0 (crel_tree r)]) (mk_hnd tid []) a b c (Some (mk_hnd (length ts) []))) /\
+    length ts <> tid.
+Proof.
+  intros Hr HT. pose proof (nth_error_Some_lt _ _ _ HT) as Hlt. eexists. split; [|lia].
+  cbn [run_op]. rewrite (rel_spec_new _ Hr). rewrite <- (crel_tree_new _ Hr). unfold st5. eapply runs_try_build.
+  - cbn [build_relation]. rbind; [apply runs_alloc|]. apply runs_set_reg.
+  - change (rreg 1) with 4. cbn [set_reg_l]. unfold reg_text, node_of_reg.
+    rbind; [rbind; [apply runs_get_reg; reflexivity|]; eapply runs_node_of; [apply nth_error_app_at|reflexivity]|].
+    rdone.
+Qed.
+
+Lemma epush_runs fa e0 fb r ts tid ri b c tr rr :
+  nth_error ts tid = Some (mk_slot true ri (cfield_tree (fa ++ e0 :: fb))) ->
+  nth_error ts tr = Some (mk_slot true rr (crel_tree r)) ->
+  exists ts' a' b' c' x,
+    runs (run_op fixed (OEPush 0 1))
+         (st5 ts (mk_hnd tid []) (Some (mk_hnd tid [3 * length fa])) b c (Some (mk_hnd tr []))) x
+         (st5 ts' (mk_hnd tid []) a' b' c' None) /\
+    nth_error ts' tid = Some (mk_slot true ri (cfield_tree (fa ++ (e0 ++ [r]) :: fb))).
+Proof.
+  intros HT HR. destruct (cfield_children_split fa e0 fb) as [Ecs Lpre].
+  set (T := cfield_tree (fa ++ e0 :: fb)) in *.
+  set (pre := preE (map centry_tree fa)) in *. set (post := sepE (map centry_tree fb)) in *.
+  assert (HG : get_path T [] = Some (Node ROOT (pre ++ centry_tree e0 :: post))).
+  { cbn [get_path]. f_equal. unfold T at 1. unfold cfield_tree, relations_from_entries. f_equal. exact Ecs. }
+  pose proof (nth_error_Some_lt _ _ _ HT) as Hlt.
+  set (rs := [Some (mk_hnd tid []); Some (mk_hnd tid ([] ++ [length pre])); b; c; Some (mk_hnd tr [])]).
+  destruct (reroot_spec ts rs 1 tid ri T [] ROOT pre (centry_tree e0) post (centry_tree (e0 ++ [r]))
+              eq_refl HT HG eq_refl) as (ts' & rs' & R & L & T' & S & A).
+  destruct (list5 rs' L) as (x0 & x1 & x2 & x3 & x4 & ->).
+  pose proof (A 0 (mk_hnd tid []) ltac:(lia) eq_refl Hlt (above_root _ _ _)) as E0.
+  cbn [nth_error] in E0, S. inversion E0; subst x0. inversion S; subst x1.
+  exists ts', (Some (mk_hnd tid ([] ++ [length pre]))), x2, x3. eexists. split.
+  - cbn [run_op]. change (rreg 1) with 4. change (ereg 0) with 1. unfold st5.
+    eapply runs_with_reg_some; [reflexivity|].
+    rbind; [apply runs_has_reg|]. cbn [nth_error].
+    rbind.
+    { unfold entry_push. rbind; [apply runs_get_reg; reflexivity|].
+      rbind; [eapply runs_node_of; [exact HT|apply get_path_cfield_entry]|].
+      rbind; [unfold node_of_reg; rbind; [apply runs_get_reg; reflexivity|]; eapply runs_node_of; [exact HR|reflexivity]|].
+      cbn [s_tree]. rewrite entry_push_green_canon. cbn [fx_entry_push fixed].
+      rbind; [rdone|]. rewrite <- Lpre. fold pre.
+      rbind; [exact R|]. apply runs_set_reg. }
+    cbn [set_reg_l]. unfold reg_text, node_of_reg.
+    rbind.
+    { rbind.
+      { rbind; [apply runs_get_reg; reflexivity|]. eapply runs_node_of; [exact T'|].
+        cbn [app s_tree get_path upd_path children]. rewrite nth_error_app_len. reflexivity. }
+      rdone. }
+    rdone.
+  - rewrite T'. f_equal. f_equal. cbn [upd_path].
+    destruct (cfield_children_split fa (e0 ++ [r]) fb) as [Ecs2 _]. fold pre post in Ecs2.
+    unfold cfield_tree, relations_from_entries in *. cbn [children] in Ecs2. now rewrite Ecs2.
+Qed.
+
+(* m_splice with nothing to delete and nothing to insert *)
+Lemma splice_nil_runs ts rs r tid p sl n lo :
+  nth_error rs r = Some (Some (mk_hnd tid p)) -> nth_error ts tid = Some sl -> s_mut sl = true ->
+  get_path (s_tree sl) p = Some n ->
+  runs (m_splice r lo lo []) (mk_state ts rs) tt (mk_state ts rs).
+Proof.
+  intros Hr HT Hm HG. unfold m_splice. rbind; [apply runs_get_reg; exact Hr|]. cbn [h_tid].
+  rbind; [eapply runs_get_slot; exact HT|]. rewrite Hm. cbn [negb].
+  rbind; [eapply runs_children_of; [exact HT|exact HG]|].
+  rewrite Nat.ltb_irrefl. cbn [andb]. rbind; [rdone|]. rdone.
+Qed.
+
+Lemma ereplace_runs fa ra r0 rb fb r ts tid ri b c tr rr :
+  nth_error ts tid = Some (mk_slot true ri (cfield_tree (fa ++ (ra ++ r0 :: rb) :: fb))) ->
+  nth_error ts tr = Some (mk_slot true rr (crel_tree r)) -> tid <> tr ->
+  exists ts' a' b' c' x,
+    runs (run_op fixed (OEReplace 0 (length ra) 1))
+         (st5 ts (mk_hnd tid []) (Some (mk_hnd tid [3 * length fa])) b c (Some (mk_hnd tr []))) x
+         (st5 ts' (mk_hnd tid []) a' b' c' None) /\
+    nth_error ts' tid = Some (mk_slot true ri (cfield_tree (fa ++ (ra ++ r :: rb) :: fb))).
+Proof.
+  intros HT HR Hne.
+  destruct (centry_children_split ra r0 rb) as [Ercs Lrpre].
+  set (T := cfield_tree (fa ++ (ra ++ r0 :: rb) :: fb)) in *.
+  set (pre := preR (map crel_tree ra)) in *. set (post := sepR (map crel_tree rb)) in *.
+  pose proof (get_path_cfield_entry fa (ra ++ r0 :: rb) fb) as HGe. fold T in HGe.
+  assert (HG : get_path T [3 * length fa] = Some (Node ENTRY (pre ++ crel_tree r0 :: post))).
+  { rewrite HGe. f_equal. unfold centry_tree, entry_from_relations. f_equal.
+    unfold centry_tree, entry_from_relations in Ercs. cbn [children] in Ercs. exact Ercs. }
+  destruct (crel_no_ws r) as [Wh Wt]. destruct (crel_no_ws r0) as [Wh0 Wt0].
+  set (rs6 := [Some (mk_hnd tid []); Some (mk_hnd tid [3 * length fa]); b; c; Some (mk_hnd tr []);
+               Some (mk_hnd tid ([3 * length fa] ++ [length pre]))]).
+  destruct (splice_replace_spec ts rs6 1 4 tid ri T [3 * length fa] ENTRY pre (crel_tree r0) post tr rr (crel_tree r)
+              eq_refl eq_refl HT HG HR Hne) as (ts' & F & R & L & T' & N & O & S1 & S2 & A).
+  pose proof (nth_error_Some_lt _ _ _ HT) as Hlt.
+  assert (A0 : F (mk_hnd tid []) = mk_hnd tid []) by (apply A; [cbn [h_tid]; auto|apply above_root]).
+  assert (A1 : F (mk_hnd tid [3 * length fa]) = mk_hnd tid [3 * length fa]) by (apply A; [cbn [h_tid]; auto|apply above_self]).
+  exists ts', (Some (mk_hnd tid [3 * length fa])), (option_map F b), (option_map F c). eexists. split.
+  - cbn [run_op]. change (rreg 1) with 4. change (ereg 0) with 1. unfold st5.
+    eapply runs_with_reg_some; [reflexivity|].
+    rbind; [apply runs_has_reg|]. cbn [nth_error].
+    rbind.
+    { unfold entry_replace. cbn [fx_replace_ws fixed]. unfold entry_replace_fixed.
+      rbind; [|apply runs_set_reg].
+      eapply runs_eq; [apply runs_scoped|reflexivity|].
+      + rbind; [apply runs_get_reg; reflexivity|].
+        rbind; [eapply runs_children_of; [exact HT|exact HGe]|].
+        rewrite nth_index_rel_centry. unfold child_h. cbn [h_tid h_path]. rewrite <- Lrpre. fold pre.
+        rbind; [apply runs_push_tmp|]. cbn [length app].
+        rbind; [rbind; [apply runs_get_reg; reflexivity|]; eapply runs_children_of; [exact HR|reflexivity]|].
+        cbn [s_tree]. rewrite Wh. cbn [m_repeat skipn]. rbind; [rdone|]. rewrite Wt. cbn [m_repeat]. rbind; [rdone|].
+        rbind; [apply runs_get_reg; reflexivity|].
+        assert (HGr : get_path T ([3 * length fa] ++ [length pre]) = Some (crel_tree r0))
+          by (eapply get_path_child; [exact HG|apply nth_error_app_len]).
+        rbind; [eapply runs_children_of; [exact HT|exact HGr]|].
+        unfold ws_head_handles, ws_tail_handles. rewrite Wh0, Wt0. cbn [seq map push_tmps].
+        rbind; [rdone|]. rbind; [rdone|].
+        rbind; [eapply splice_nil_runs; [reflexivity|exact HR|reflexivity|reflexivity]|].
+        rbind; [rbind; [apply runs_get_reg; reflexivity|]; eapply runs_children_of; [exact HR|reflexivity]|].
+        cbn [rev]. rbind; [eapply splice_nil_runs; [reflexivity|exact HR|reflexivity|reflexivity]|].
+        rbind; [rbind; [apply runs_get_reg; reflexivity|]; unfold index_of;
+                change [3 * length fa; length pre] with ([3 * length fa] ++ [length pre]);
+                rewrite parent_h_app; rdone|].
+        exact R.
+      + unfold rs6. cbn [map option_map length firstn]. rewrite A0, A1. reflexivity. }
+    cbn [set_reg_l]. unfold reg_text, node_of_reg.
+    rbind.
+    { rbind.
+      { rbind; [apply runs_get_reg; reflexivity|].
+        eapply runs_node_of; [exact T'|].
+        apply get_path_upd_path with (n := Node ENTRY (pre ++ crel_tree r0 :: post)). exact HG. }
+      rdone. }
+    rdone.
+  - rewrite T'. f_equal. f_equal.
+    assert (Ee : Node ENTRY (pre ++ crel_tree r :: post) = centry_tree (ra ++ r :: rb)).
+    { destruct (centry_children_split ra r rb) as [E2 _]. fold pre post in E2.
+      unfold centry_tree, entry_from_relations in *. cbn [children] in E2. now rewrite E2. }
+    rewrite Ee. apply upd_cfield_entry.
+Qed.
